@@ -53,13 +53,15 @@ def callH (j : Json) : R Json := do
   let a ← getAmp (← fld j "amp")
   let o ← getOper (← fld j "oper")
   let seqs ← fList (getList getChan) j "calls"
+  -- persist = the code keeps the clamped value in `effective_gain` for the next call (current behaviour)
+  let persist := (← fOpt getBool j "persist").getD true
   let mut g := o.gain
   let mut outs : List Json := []
   for cs in seqs do
     match call a { o with gain := g } cs with
     | none => outs := outs ++ [Json.null]
     | some r =>
-      g := r.effGain
+      if persist then g := r.effGain
       outs := outs ++ [jOut r]
   return Json.arr outs.toArray
 
